@@ -8,7 +8,7 @@ from mc import lib, pmodel
 from checks import c01
 
 PROPERTY = 'C09'
-CASE_TIMEOUT_S = 60   # bundles hold up to 22k strings (~1 s); a single hanging string trips the watchdog
+CASE_TIMEOUT_S = 180   # bundles hold up to 22k strings (~1 s); a single hanging string trips the watchdog
 RULE = ('language space: all strings of <=L tokens over a 28-token alphabet (BFS by length, bundled by 2-token prefix); '
         'mutation space: delete / insert any token / swap neighbours / duplicate at every character position of every '
         'valid string of the C01 level<=1 space; pumping: every <=3-token string with each token repeated 1..8 times; '
